@@ -488,6 +488,36 @@ func c18Generate(r *Rand, mode string, nowYear int, firstID int) *c18Doc {
 			p = []string{"Paris, France", "Sydney, NSW, Australia", "New York, USA", "Old Town", "Leeds"}[r.Intn(5)]
 		}
 		g.places = append(g.places, p)
+		if g.taint && !r.Chance(1, 4) {
+			// 1..6 comma separated jurisdictions, a token in every part: PlaceNode.Country() is the raw
+			// fourth part of exactly four, County/State/Name are other parts, and the known-country
+			// fallback looks at the end of the value
+			k := 1 + r.Intn(6)
+			if r.Chance(1, 3) {
+				k = 4
+			}
+			words := []string{"Springfield", "Clark", "Ohio", "USA", "Earth", "Sol"}
+			parts := make([]string, k)
+			for i := range parts {
+				g.next++
+				kind := fmt.Sprintf("place part %d of %d", i+1, k)
+				g.kinds[g.next] = kind
+				tok := c18TokenV(g.next, g.variant(kind, true))
+				switch r.Intn(3) {
+				case 0:
+					parts[i] = tok
+				case 1:
+					parts[i] = words[i] + tok
+				default:
+					parts[i] = tok + words[i]
+				}
+			}
+			sep := ","
+			if r.Bool() {
+				sep = ", "
+			}
+			return strings.Join(parts, sep)
+		}
 		return g.val("place", p)
 	}
 	date := func(alive bool) string {
